@@ -17,7 +17,7 @@ RULE = ("one case = one random expression tree (depth <= 6) over {SigmaX, SigmaY
         "SWAP(A)} and scalars {0, +-1, 2, -3.5, 1e-9, 1e9, numpy.float64, True} using -x, x+y, x-y, s*x, x*s, s+x, x+s, s-x, "
         "x-s, evaluated on a random batch of a random state. Non-trivial: depth >= 2, >= 1 scalar and >= 2 leaves; distinct by "
         "the canonical string of the tree.")
-REQUIRED = ["reuse_on_second_state_checks", "trees_evaluated", "apply_vectors_compared", "statistics_dicts_compared", "rejections_observed",
+REQUIRED = ["immutability_checks", "reuse_on_second_state_checks", "trees_evaluated", "apply_vectors_compared", "statistics_dicts_compared", "rejections_observed",
             "ops_neg", "ops_add", "ops_sub", "ops_mul_left_scalar", "ops_mul_right_scalar", "ops_radd", "ops_rsub", "ops_add_scalar",
             "ops_sub_scalar"]
 ANCHOR_FILES = ["qucumber/observables/observable.py"]
@@ -63,11 +63,13 @@ def build(rng, nv, depth, ctx, stats):
     """returns (library observable, interpreter closure, canonical string, #leaves, #scalars, depth)"""
     if depth == 0 or rng.random() < 0.18:
         ob, s = leaf(rng, nv)
+        stats.setdefault("_nodes", []).append(ob)
         return ob, ("leaf", ob), s, 1, 0, 0
     op = int(rng.integers(0, 9))
     a = build(rng, nv, depth - 1, ctx, stats)
     sc = SCALARS[int(rng.integers(0, len(SCALARS)))]
     scs = repr(sc)
+    stats.setdefault("_nodes", []).append(a[0])
     if op == 0:
         stats["ops_neg"] += 1
         return -a[0], ("neg", a[1]), f"(-{a[2]})", a[3], a[4], a[5] + 1
@@ -145,6 +147,7 @@ def run_case(case, ctx):
         ctx.violation("valid-expression-rejected", f"building a linear combination raised {type(e).__name__}: {e}",
                       tags={"exc": type(e).__name__}, witness={"traceback": traceback.format_exc()[-1500:]})
         return
+    nodes = stats.pop("_nodes", [])
     for k, v in stats.items():
         ctx.count(k, v)
     B = int(rng.integers(2, 8))
@@ -171,6 +174,23 @@ def run_case(case, ctx):
                       f"the same arithmetic on its leaves gives {want[j]!r}", tags=tags, witness=wit)
     if not torch.equal(batch, keep):
         ctx.violation("batch-modified", "composite.apply modified the batch", tags=tags)
+    # history: building further expressions from the parts of an existing one (including the augmented-assignment
+    # spellings, which Python maps to the binary operators unless a class mutates in place) must not change it
+    if nodes and isinstance(got, torch.Tensor):
+        g_before = got.detach().clone()
+        for nd in [nodes[int(rng.integers(0, len(nodes)))] for _ in range(3)]:
+            t_ = nd
+            t_ *= 3
+            t_ += 1.5
+            t_ -= nd
+            t_ = -t_
+            t2_ = 2 * nd
+            t2_ *= -0.5
+        again = ctx.lib("composite.apply(after building other expressions from its parts)", comp.apply, st, batch, tags=tags)
+        ctx.count("immutability_checks")
+        if not isinstance(again, torch.Tensor) or again.shape != g_before.shape or not torch.equal(again, g_before):
+            ctx.violation("expression-mutated", f"composite {canon[:200]} changed value after new expressions were derived from its "
+                          "parts (in-place mutation of a shared node)", tags=tags, witness=wit)
     if case["rep"] % 2 == 0:
         # history: the same composite object evaluated again on another batch of ANOTHER state
         kind2 = gen.KINDS[(case["rep"] + 1) % 3]
